@@ -48,7 +48,7 @@ c = contract('ikesa.IkeSa.generate_rekey_ike_sa_request', returns=MSG, props=['C
                       'new-sa': 'new_sa_local(self)'})
 c.allocates = True
 
-contract('ikesa.IkeSa.check_rekey_ike_sa_timer', returns=Opt(Bytes), props=['C13'],
+contract('ikesa.IkeSa.check_rekey_ike_sa_timer', returns=Opt(Bytes), props=['C13', 'C09'],
          requires=['inv_ikesa(self)'], raises={},
          modifies=['self.request', 'self.state', 'self.deleting_child_sa', 'self.new_ike_sa', 'self.retransmissions',
                    'self.retransmit_at', 'ghost:now', 'ghost:trace'],
